@@ -566,6 +566,12 @@ def taint_from(fn, seeds, through_calls=True, stop_calls=None):
     for i, j, p, rv, sp in fn.assigns():
         if len(p) == 1 and rv["r"] in ("ref", "rawptr"):
             referent.setdefault(p[0], set()).add(rv["p"][0])
+        elif len(p) == 1 and rv["r"] in ("use", "cast") and fn.local_ty(p[0]).startswith("*"):
+            # a raw pointer taken out of a field of an owner (Box/NonNull/Unique internals):
+            # stores through it modify the owner
+            pl = op_place(rv["op"])
+            if pl is not None and len(pl) > 1:
+                referent.setdefault(p[0], set()).add(pl[0])
     # refs copied around
     changed = True
     while changed:
